@@ -271,7 +271,7 @@ theorem R_calleeTail (v : Variant) (m : Nat) (hasRoot : Bool) (rootType : Nat) (
   intro a s'
   cases a with
   | none => exact R_errPeek v 20
-  | some tk => exact R_bind (R_newID Y tk) (fun _ _ => R_pure _)
+  | some tk => exact R_bind (R_newID Y tk) (fun _ _ => R_bind (R_lineOf Y tk) (fun _ _ => R_pure _))
 
 end prims
 
